@@ -109,11 +109,17 @@ fn family_of(rng: &mut Rng) -> Family {
 }
 
 pub fn gen_dag(rng: &mut Rng, family: Family, fuel: usize, dup: u64) -> Option<(Dag, ast::Typing)> {
+    gen_dag_sharing(rng, family, fuel, dup, true)
+}
+
+/// `unshare = false` keeps witness / disconnect nodes that are reachable along two paths: the text
+/// format refuses those by rule, which is itself worth watching (a text that is accepted must round-trip).
+pub fn gen_dag_sharing(rng: &mut Rng, family: Family, fuel: usize, dup: u64, unshare: bool) -> Option<(Dag, ast::Typing)> {
     let p = GenParams { family, share_pct: 15, dup_pct: dup, mid: TyParams { max_width: 40, max_depth: 3, max_word_n: 4 }, ..GenParams::basic(fuel) };
     let (a, b) = (ty::unit(), ty::unit());
     let dag = gen::gen_program(rng, &p, &a, &b);
     // no witness / disconnect node reachable along two paths (see gen::unshare_wd)
-    let mut dag = gen::unshare_wd(&dag);
+    let mut dag = if unshare { gen::unshare_wd(&dag) } else { dag };
     // a committed program does not contain the disconnected branch: its types must not depend on one
     for op in dag.nodes.iter_mut() {
         if let Op::Disconnect(a, Some(_)) = op {
@@ -471,7 +477,9 @@ fn source_case(rng: &mut Rng, case: &mut Case) -> Outcome {
     let family = family_of(rng);
     let fuel = rng.urange(1, 24);
     let dup = *rng.pick(&[0u64, 15, 40]);
-    let (dag, typing) = match gen_dag(rng, family, fuel, dup) {
+    // one text in six keeps witness / disconnect nodes shared between two paths
+    let keep_shared = rng.chance(1, 6);
+    let (dag, typing) = match gen_dag_sharing(rng, family, fuel, dup, !keep_shared) {
         Some(x) => x,
         None => return Outcome::Inconclusive("generator".into()),
     };
@@ -483,6 +491,11 @@ fn source_case(rng: &mut Rng, case: &mut Case) -> Outcome {
         Ok(Err(e)) => {
             // outside the property: a generated text the parser refuses. Counted, and bounded by a floor.
             case.count("source.generated-text-refused");
+            if keep_shared && e.contains("distinct paths") {
+                // refused by the format's own rule; nothing to round-trip
+                case.count("source.shared-witness-or-disconnect-refused");
+                return Outcome::Trivial;
+            }
             let kind = if e.contains("failed to apply bound") {
                 "type ascription"
             } else if e.contains("distinct paths") {
@@ -505,6 +518,9 @@ fn source_case(rng: &mut Rng, case: &mut Case) -> Outcome {
     }
     for f in &features {
         case.count(&format!("source.feature.{}", f));
+    }
+    if keep_shared {
+        case.count("source.generated-with-shared-witness-nodes-accepted");
     }
     // the parsed program is the one that was written down
     if let Some(m) = forest.roots().get("main") {
